@@ -290,6 +290,13 @@ class DescriptorTransaction(_TransactionBase):
                                      if tr_item.new is None and tr_item.old is not None]
             to_be_created_handles = [tr_item.new.Handle for tr_item in self.descriptor_updates.values()
                                      if tr_item.old is None and tr_item.new is not None]
+            # deleting a descriptor deletes its whole subtree: updates of descriptors and states in that subtree
+            # that are also part of this transaction must not be applied (they would leave orphans in mdib).
+            deleted_subtree_handles = set()
+            for tr_item in self.descriptor_updates.values():
+                if tr_item.new is None and tr_item.old is not None:
+                    deleted_subtree_handles.update(
+                        d.Handle for d in self._mdib.get_all_descriptors_in_subtree(tr_item.old))
             # Remark 1:
             # handling only updated states here: If a descriptor is created, it can be assumed that the
             # application also creates the state in a transaction.
@@ -331,6 +338,8 @@ class DescriptorTransaction(_TransactionBase):
                             and orig_descriptor.parent_handle not in to_be_deleted_handles:
                         # only update parent if it is not also deleted in this transaction
                         self._increment_parent_descriptor_version(proc, orig_descriptor)
+                elif new_descriptor.Handle in deleted_subtree_handles:
+                    continue  # an ancestor is deleted in this transaction
                 else:
                     # this is an update operation
                     proc.descr_updated.append(new_descriptor)
@@ -347,6 +356,9 @@ class DescriptorTransaction(_TransactionBase):
                                             (self.operational_state_updates, proc.op_updates),
                                             (self.rt_sample_state_updates, proc.rt_updates),
                                             ):
+                for key in [k for k, item in updates_dict.items() if item.new is not None
+                            and item.new.DescriptorHandle in deleted_subtree_handles]:
+                    del updates_dict[key]
                 updates = self._handle_state_updates(updates_dict)
                 dest_list.extend(updates)
         return proc
